@@ -23,6 +23,13 @@ ids = sys.argv[2:] or sorted(props)
 os.makedirs('/tmp/sa_prompts', exist_ok=True)
 
 STYLE = {
+    'i': ('This time the change must need a COMBINATION OF TWO OR MORE OPTIONS or argument properties to show - each of '
+          'them alone (and the defaults) must keep working. Examples of axes that can be combined: endianness x unequal '
+          'widths x basis spelling x add_outputs x given result labels; block name x add_prefix x connection direction x '
+          'repeated connectors; output selection x repeated outputs; input removal x position in a pipeline; size limit x '
+          'cut size x fan-out limit x time limit x validation; inverse x start set x hook set x topsort_unvisited; '
+          'don\'t-care pattern x exclusion list x output count. Alternatively a size at which two thresholds or two '
+          'recursion levels meet. A reviewer who reads the diff alone should find it plausible.'),
     'h': ('This time the change must only show on objects PRODUCED BY ANOTHER PART OF THE LIBRARY and then handed to the '
           'functionality of this property: a circuit returned by an arithmetic generator, by the bench parser, by into_bench, '
           'by a composition (connect_circuit / add_circuit / extend_circuit), by a database lookup, by a simplification '
